@@ -427,6 +427,68 @@ def equal_hop_by_hop_on_two_connections(rec):
                 w.close()
 
 
+def send_vs_loss(decisions, npeers=1):
+    """send_request is called in the same instant in which the (only / chosen) peer's connection goes away.
+    The outcome is a transmission, NotRoutable or a timeout - nothing else.  One schedule."""
+    from dv import sched
+    from diameter.message.commands import CreditControlRequest
+    w = W.NodeWorld({"peers": [{"name": f"peer{i + 1}.example", "ip": [f"10.1.1.{i + 1}"]} for i in range(npeers)],
+                     "apps": [{"app_id": 4, "auth": True, "peers": list(range(npeers)), "handler": "answer"}],
+                     "node_timers": {"idle": 5000, "dwa": 50, "cer": 50, "cea": 50, "wakeup": 5}})
+    try:
+        NotRoutable = w.mods["node"].NotRoutable
+        w.start()
+        cs = [w.handshake_in(f"peer{i + 1}.example", auth=[4], ip=f"10.1.1.{i + 1}", hbh=0x100 + i) for i in range(npeers)]
+        app = w.apps[0]
+        m = CreditControlRequest()
+        m.session_id, m.origin_host, m.origin_realm = "n;1", W.NODE_HOST.encode(), W.NODE_REALM.encode()
+        m.destination_realm, m.service_context_id = W.NODE_REALM.encode(), "x"
+        m.cc_request_type, m.cc_request_number = 1, 0
+        ex = sched.Explorer(decisions)
+        sched.attach(w.k, ex)
+        cs[0].peer_closed = True
+
+        def lose_and_send():
+            cs[0].remote.close()
+            return app.send_request(m, timeout=2)
+        ex.armed = True
+        box = w.k.spawn(lose_and_send, name="sender")
+        w.k.run()
+        ex.armed = False
+        w.advance(4)
+        problems = []
+        if not box["done"]:
+            problems.append(("sender-blocked", "send_request still blocked after its timeout"))
+        elif box["exc"] is not None and not isinstance(box["exc"], (NotRoutable, TimeoutError)):
+            problems.append((f"send-raised/{type(box['exc']).__name__}", repr(box["exc"])))
+        for sig, d in W.monitor_threads(w):
+            problems.append((f"thread-died/{sig}", d))
+        return ex.trace, problems
+    finally:
+        w.close()
+
+
+def schedule_part_loss(rec, shard, nshards, thorough):
+    from dv import sched
+    from dv.common import fp
+    for npeers in (1, 2):
+        holder = {}
+
+        def run_one(dec, npeers=npeers):
+            tr, problems = send_vs_loss(dec, npeers)
+            holder["last"] = problems
+            return tr
+        n = 0
+        for dec, trace in sched.enumerate_schedules(run_one, 2 if thorough else 1, shard, nshards):
+            case = {"send_vs_loss": npeers, "schedule": {str(i): c for i, c in sorted(dec.items())}}
+            for kind, detail in holder["last"]:
+                rec.violation(f"C10/concurrent-loss/{kind}", case, detail)
+            n += 1
+            rec.case(fp("sched-loss", npeers, tuple(sorted(dec.items()))) if dec else None,
+                     ["schedule-exploration", "send-vs-loss", f"deviations:{len(dec)}"], sample=lambda: dict(case, choice_points=len(trace)))
+        rec.extra["send_vs_loss_schedules"] = rec.extra.get("send_vs_loss_schedules", 0) + n
+
+
 def schedule_part(rec, shard, nshards, thorough):
     from dv import sched
     from dv.common import fp
@@ -459,6 +521,7 @@ def shard_main(shard, nshards, tier, scale):
     thorough = tier == "thorough"
     shrunk = set()
     schedule_part(rec, shard, nshards, thorough)
+    schedule_part_loss(rec, shard, nshards, thorough)
     n = int((10000 if thorough else 800) * scale)
 
     def body(case):
@@ -473,7 +536,7 @@ def run(tier, scale=1.0):
     rec = Recorder(PID)
     for d in hyp.pool_run(shard_main, (tier, scale)):
         rec.merge(d)
-    required = {"equal-hop-by-hop-two-connections": 1, "schedule-exploration": 1, "senders:3": 1, "npeers:4": 1, "napps:3": 1, "select:first": 1, "select:None": 1, "state:waiting-dwa": 1,
+    required = {"send-vs-loss": 1, "equal-hop-by-hop-two-connections": 1, "schedule-exploration": 1, "senders:3": 1, "npeers:4": 1, "napps:3": 1, "select:first": 1, "select:None": 1, "state:waiting-dwa": 1,
                 "state:disconnecting": 1, "state:disconnecting-late-dwa": 1, "state:awaiting": 1, "state:closed": 1, "sends:4": 1}
     return finish(rec, tier=tier, level="exploration", rule=RULE, assumptions=ASSUME, t0=t0,
                   required_classes=required)
